@@ -2664,8 +2664,25 @@ def spec_complete_option_state(fns, consts):
     if len(hdr) != 1 or not ns:
         raise Unsupported("clap_complete::engine::complete: loop header / next_state not found")
     ex = symex.Exec(ctx, cfn, [("opq", "cmd"), ("opq", "args"), ("bv", ctx.sym("arg_index", "(_ BitVec 64)"), 64), ("opq", "current_dir")])
-    ex.run(start=hdr[0], stop_at=hdr[0], havoc_unassigned=True, cut_loops=True)
+    esc_l = cfn.debug.get("is_escaped")
+    esc = ("bool", ctx.sym("is_escaped", "Bool"))
+    ex.run(start=hdr[0], stop_at=hdr[0], env={ns: ("opq", "state_in"), **({esc_l: esc} if esc_l else {})}, havoc_unassigned=True, cut_loops=True)
     obs, n_long, n_short = [], 0, 0
+    # the level is advanced (find_subcommand consulted) only where the real parser would look for a subcommand:
+    # not after `--`, and not while an option / multi-value positional is taking values (unless subcommand precedence)
+    d_in = ex.typed_fresh("discr(state_in)", "isize")[1]
+    prec = [ctx.keys[k] for k in ctx.keys if re.search(r"Command::is_subcommand_precedence_over_arg_set\(", k)]
+    n_desc = 0
+    for pc, env in ex.stops:
+        ca = env.get("#callargs", ())
+        if any(re.search(r"Command::find_subcommand(::<.*>)?$", c[0]) for c in ca):
+            n_desc += 1
+            guard = f"(and (not {esc[1]}) (or {prec[0]} (= {d_in} (_ bv0 64))))" if (len(prec) == 1 and esc_l) else "false"
+            obs.append({"fn": cfn.name, "block": "loop", "kind": "spec", "target": "complete_option_state",
+                        "msg": "a word is looked up as a subcommand only before `--` and outside an option's / multi-value positional's values (or with subcommand precedence), like the parser",
+                        "pc": list(pc), "neg": f"(not {guard})"})
+    if n_desc == 0:
+        obs.append({"fn": cfn.name, "block": "shape", "kind": "spec", "target": "complete_option_state", "msg": "complete: no path looks a word up as a subcommand", "pc": [], "neg": "true"})
     for pc, env in ex.stops:
         v = env.get(ns)
         if not v or v[0] != "opq" or not re.match(r"^variant:.*::Opt\(\(", v[1]) or not v[1].endswith(",(_ bv1 64)))"):
